@@ -421,6 +421,18 @@ func recvName(fd *ast.FuncDecl) string {
 }
 
 func ruleW2(c *Ctx, t *wireTables) {
+	c.rule("W2b", "varint bound: every varint decoding loop of every UnmarshalVT gives up at the same shift bound, 64 bits — the width both encoders use for every integer type, including sign-extended negative int32 values", 1)
+	shiftBounds := map[string]int{}
+	var shiftOdd [][2]string
+	var shiftPos token.Pos
+	defer func() {
+		detail := ""
+		for _, o := range shiftOdd {
+			detail += fmt.Sprintf("UnmarshalVT of %s stops a varint at shift >= %s; ", o[0], o[1])
+		}
+		c.ok("W2b", "shift-bound", shiftPos, len(shiftOdd) == 0 && shiftBounds["64"] > 100, fmt.Sprintf("all %d varint loops use the 64-bit bound", shiftBounds["64"]),
+			detail+"values that the encoders write with more bytes (negative int32/enum values are sign-extended to 10 bytes) are rejected as overflow by the specialised decoder but accepted by the reflection decoder")
+	}()
 	c.rule("W2", "vtproto unmarshal: in each UnmarshalVT the switch over the field number has exactly the message's field numbers; each case checks that field's wire type and assigns only that field", 160)
 	for _, name := range t.sortedMsgs() {
 		gn := goMsgName(name)
@@ -508,6 +520,23 @@ func ruleW2(c *Ctx, t *wireTables) {
 				c.ok("W2", key, cc.Pos(), bad == "", fmt.Sprintf("UnmarshalVT of %s decodes field #%d into %s with its wire type", name, num, x.goName), bad)
 			}
 			return false
+		})
+		// W2b: varint decoding loops share one overflow bound
+		ast.Inspect(fd.Body, func(n ast.Node) bool {
+			be, ok := n.(*ast.BinaryExpr)
+			if !ok || be.Op != token.GEQ {
+				return true
+			}
+			id, ok := be.X.(*ast.Ident)
+			bl, ok2 := be.Y.(*ast.BasicLit)
+			if ok && ok2 && id.Name == "shift" {
+				shiftBounds[bl.Value]++
+				if bl.Value != "64" {
+					shiftOdd = append(shiftOdd, [2]string{name, bl.Value})
+					shiftPos = be.Pos()
+				}
+			}
+			return true
 		})
 		for _, x := range tf {
 			if !seen[x.num] {
